@@ -4147,40 +4147,56 @@ func ruleEmittedReadersOverwrite(c *core.Ctx) {
 				emits = append(emits, r)
 			}
 		}
-		start := -1
-		flush := func(end int) {
-			if start < 0 {
-				return
-			}
-			group := emits[start:end]
-			reset := false
-			depth := 1 // inside the braces of the emitted function
-			for _, r := range group[1:] {
-				// a reset counts when it is emitted at the top level of the C++ function (not inside an emitted `if (...) {`
-				// that returns early)
-				if resetRe.MatchString(r.Tmpl) && depth == 1 {
-					reset = true
-				}
-				depth += strings.Count(r.Tmpl, "{") - strings.Count(r.Tmpl, "}")
-				if accRe.MatchString(r.Tmpl) {
-					n++
-					key := fmt.Sprintf("%s/from_json/%s", c.FuncName(d), strings.TrimSpace(strings.Split(r.Tmpl, "\n")[0]))
-					c.Check(reset, rule, key, r.Pos, "`value` is reset before it is accumulated into",
-						"the emitted from_json accumulates into `value` (`"+strings.TrimSpace(r.Tmpl)+"`) without resetting it first: the generated stream reader reuses one object for all items, so every item keeps the bits / elements of the items read before it")
-				}
-			}
+		// C++ block depth in front of every emission (relative: the function header may be printed by a helper)
+		depth := make([]int, len(emits)+1)
+		for i, r := range emits {
+			depth[i+1] = depth[i] + strings.Count(r.Tmpl, "{") - strings.Count(r.Tmpl, "}")
 		}
+		// only readers: an accumulation after the last emitted `to_json(` header and not before a `from_json(` one is a writer's
+		inReader := make([]bool, len(emits))
+		reader := false
+		sawHeader := false
 		for i, r := range emits {
 			t := strings.TrimSpace(r.Tmpl)
 			if strings.Contains(t, "from_json(") && strings.HasSuffix(t, "{") {
-				flush(i)
-				start = i
+				reader, sawHeader = true, true
 			} else if strings.Contains(t, "to_json(") && strings.HasSuffix(t, "{") {
-				flush(i)
-				start = -1
+				reader, sawHeader = false, true
 			}
+			inReader[i] = reader
 		}
-		flush(len(emits))
+		for k, r := range emits {
+			if !accRe.MatchString(r.Tmpl) || (sawHeader && !inReader[k]) {
+				continue
+			}
+			if !sawHeader && !strings.Contains(strings.ToLower(d.Name.Name), "converter") {
+				continue
+			}
+			n++
+			// a reset whose C++ block is still open at the accumulation: the depth never falls below the reset's in between
+			good := false
+			for i := k - 1; i >= 0; i-- {
+				if depth[i+1] < depth[i] && depth[i+1] < 0 {
+					// keep scanning: relative depths may be negative when the header is printed elsewhere
+				}
+				if !resetRe.MatchString(emits[i].Tmpl) {
+					continue
+				}
+				open := true
+				for j := i + 1; j <= k; j++ {
+					if depth[j] < depth[i] {
+						open = false
+					}
+				}
+				if open {
+					good = true
+					break
+				}
+			}
+			key := fmt.Sprintf("%s/from_json/%s", c.FuncName(d), strings.TrimSpace(strings.Split(r.Tmpl, "\n")[0]))
+			c.Check(good, rule, key, r.Pos, "`value` is reset, in a block that is still open, before it is accumulated into",
+				"the emitted from_json accumulates into `value` (`"+strings.TrimSpace(r.Tmpl)+"`) without resetting it first: the generated stream reader reuses one object for all items, so every item keeps the bits / elements of the items read before it")
+		}
 	}
 	if n == 0 {
 		c.Undecided(rule, "anchor/accumulating from_json", 0, "no emitted from_json that accumulates into its destination found")
@@ -4638,6 +4654,48 @@ func ruleEmptyDimensionListRejected(c *core.Ctx) {
 				hit, hitFn = r, d.Name.Name
 			}
 		}
+	}
+	// second engine: every place of a validation pass that handles a *Array — a type-switch case, the body of an
+	// `if a, ok := node.(*Array); ok` — evaluated for the abstract array "Dimensions present and empty", helpers followed
+	for _, d := range c.AllDecls() {
+		if c.DeclPkg(d) != p || d.Body == nil || hit != nil {
+			continue
+		}
+		f, _ := p.TypesInfo.Defs[d.Name].(*types.Func)
+		if f == nil || d.Recv != nil || !types.Identical(f.Type(), tn.Type().Underlying()) {
+			continue
+		}
+		ast.Inspect(d.Body, func(nn ast.Node) bool {
+			if hit != nil {
+				return false
+			}
+			var body []ast.Stmt
+			var obj types.Object
+			switch x := nn.(type) {
+			case *ast.TypeSwitchStmt:
+				for _, cl := range x.Body.List {
+					cc := cl.(*ast.CaseClause)
+					if len(cc.List) == 1 && types.ExprString(cc.List[0]) == "*Array" {
+						body, obj = cc.Body, p.TypesInfo.Implicits[cc]
+					}
+				}
+			case *ast.IfStmt:
+				if as, ok := x.Init.(*ast.AssignStmt); ok && len(as.Lhs) == 2 && len(as.Rhs) == 1 {
+					if ta, ok := ast.Unparen(as.Rhs[0]).(*ast.TypeAssertExpr); ok && ta.Type != nil && types.ExprString(ta.Type) == "*Array" && identObj(p.TypesInfo, x.Cond) == identObj(p.TypesInfo, as.Lhs[1]) {
+						body, obj = x.Body.List, identObj(p.TypesInfo, as.Lhs[0])
+					}
+				}
+			}
+			if body == nil {
+				return true
+			}
+			nArrayRows++
+			if decided, reported := emptyDimensionsRejected(c, p.TypesInfo, body, obj); decided && reported {
+				hit = &gee.Row{Pos: body[0].Pos(), Args: []string{"(finite-domain evaluation of the *Array handler)"}}
+				hitFn = d.Name.Name
+			}
+			return true
+		})
 	}
 	if nArrayRows == 0 {
 		c.Undecided(rule, "anchor/array validation", 0, "no error report about *Array found in the validation passes")
